@@ -7,6 +7,7 @@ from values import *     # noqa
 from models import model, fallback, chars_of, conj, disj, neg, items_of, struct_eq, is_stringlike, seq_eq_cond
 import interp as _interp
 from interp import parse_callee, last_seg, generic_args, RANGES
+from mirparse import strip_generics
 
 
 def W(I):
@@ -124,6 +125,8 @@ def _partial_cmp(I, ci, a, b):
 def _ord_pred(test):
     def m(I, ci, a, b):
         pa, pb = peel(a), peel(b)
+        if isinstance(pa, Opaque) and pa.kind == 'tracing':
+            return False        # logging disabled (models_misc): `Level <= LevelFilter` is false, no event is built
         if isinstance(pa, (int, z3.ArithRef)) and not isinstance(pa, bool):
             return test(pa, pb)
         if isinstance(pa, Adt) and pa.name not in ('tuple', 'Option', 'Result', 'Box', 'Ordering'):
@@ -696,8 +699,11 @@ def _res_unwrap_or(I, ci, r, d):
 def _res_unwrap_or_default(I, ci, r):
     if variant_of(I, r) == 0:
         return r.fields[0]
-    t = generic_args(ci.selfty_full)
-    return DEFAULTS[last_seg(t[0])]()
+    from interp import type_generic_args
+    t = generic_args(ci.selfty_full) or type_generic_args(ci)
+    if not t or last_seg(strip_generics(t[0])) not in DEFAULTS:
+        raise Unsupported('Result::unwrap_or_default for %s' % ci.text)
+    return DEFAULTS[last_seg(strip_generics(t[0]))]()
 
 
 @model('Result::unwrap_or_else')
@@ -1505,6 +1511,9 @@ def _hash(I, ci, v, h):
     return UNIT
 
 
+HASH_RANGE = [0, 2**64 - 1]      # a harness may narrow the digit-length classes of the uninterpreted hash (stated as a bound)
+
+
 @model('<Hasher>::finish', 'DefaultHasher::finish')
 def _finish(I, ci, h):
     """SipHash of the written data: an uninterpreted u64, equal for (syntactically) equal data within a path"""
@@ -1520,6 +1529,6 @@ def _finish(I, ci, h):
     cache = w.__dict__.setdefault('_hashes', {})
     hit = cache.get(key)
     if hit is None:
-        hit = (list(st), w.fresh_int('siphash', 0, 2**64 - 1))
+        hit = (list(st), w.fresh_int('siphash', HASH_RANGE[0], HASH_RANGE[1]))
         cache[key] = hit
     return hit[1]
